@@ -72,7 +72,7 @@ theorem Good.ext_same {e : Env} {as as' : State} {i : Nat} {w : W} (h : Good e a
     (hh : (as'.nodes i).height = (as.nodes i).height) (hv : (as'.nodes i).view = (as.nodes i).view)
     (hc : (as'.nodes i).chain = (as.nodes i).chain) (hp : (as'.nodes i).myPreps = (as.nodes i).myPreps)
     (hm : (as'.nodes i).myCommits = (as.nodes i).myCommits) : Good e as' i w :=
-  ⟨h.g.ext x, h.rn.mono x hh hv hc hp hm, fun pl hpl => (h.outs pl hpl).ext x, h.st, h.lt⟩
+  ⟨h.g.ext x, h.rn.mono x hh hv hc hp hm, fun pl hpl => (h.outs pl hpl).ext x, h.blk, h.st, h.lt⟩
 
 /-- a machine that is started and has not handed a block to its ledger works on its abstract node's height and view -/
 theorem Good.synced {e : Env} {as : State} {i : Nat} {w : W} (h : Good e as i w) (hb : w.nd.blockProcessed = false) :
